@@ -1,0 +1,8 @@
+//go:build verif
+
+package plenc
+
+import "github.com/philpearl/plenc/internal/verifhook"
+
+// SetVerifHook installs a hook called at the verification yield points.
+func SetVerifHook(f func(point string)) { verifhook.Set(f) }
